@@ -17,7 +17,8 @@ fn msgs() -> Vec<String> {
 }
 fn footers() -> Vec<Option<String>> {
     vec![None, Some("".into()), Some("f".into()), Some("ok?".into()), Some("id~".into()), Some(" ".into()), Some("\n".into()), Some("\u{1F511}".into()),
-         Some("{\"kid\":\"k1\"}".into()), Some("F".repeat(130)), Some("g".repeat(256)), Some("ab".into()), Some("abc".into()), Some("abcd".into()), Some("L".repeat(9000))]
+         Some("{\"kid\":\"k1\"}".into()), Some("F".repeat(130)), Some("g".repeat(256)), Some("ab".into()), Some("abc".into()), Some("abcd".into()), Some("L".repeat(9000)),
+         Some("printer.local.".into()), Some("{\"iss\":\"auth.local.example.org\"}".into()), Some("vault:app.secret.signing-key/v3".into()), Some("k4.local-pw.x".into()), Some("k4.lid.abc".into()), Some("{}}".into()), Some("[[".into()), Some("L".repeat(6145))]
 }
 fn fstr(f: &Option<String>) -> &str { f.as_deref().unwrap_or("") }
 fn key32(b: u8) -> Key<32> { let mut k = [b; 32]; k[0] = 7; Key::<32>::from(k) }
@@ -166,6 +167,9 @@ fn tampered(t: &str) -> Vec<(String, String)> {
     for (what, extra) in [("one more empty segment ('.' appended)", "."), ("a segment 'AAAA' appended", ".AAAA"), ("two empty segments appended", ".."), ("segments '.x.y.z' appended", ".x.y.z"), ("'..junk' appended", "..junk")] {
         // (a single trailing '.' after a footer-less token is the tolerated empty footer segment; the caller filters that case)
         out.push((format!("{what}"), format!("{t}{extra}"))); }
+    if parts[2].contains('-') || parts[2].contains('_') { let alt = parts[2].replace('-', "+").replace('_', "/"); let mut s = format!("{hdr}{alt}"); if parts.len() == 4 { s.push('.'); s.push_str(parts[3]); } out.push(("payload text rewritten in the standard base64 alphabet (+ and / for - and _)".into(), s)); }
+    for (from, to) in [('-', '+'), ('_', '/')] { if let Some(ix) = parts[2].find(from) { let mut alt = parts[2].to_string(); alt.replace_range(ix..ix + 1, &to.to_string()); let mut s = format!("{hdr}{alt}"); if parts.len() == 4 { s.push('.'); s.push_str(parts[3]); } out.push((format!("first {from:?} of the payload text replaced by {to:?}"), s)); } }
+    if parts.len() == 4 && (parts[3].contains('-') || parts[3].contains('_')) { out.push(("footer segment rewritten in the standard base64 alphabet".into(), format!("{hdr}{}.{}", parts[2], parts[3].replace('-', "+").replace('_', "/")))); }
     out.push(("one char appended to payload text".into(), { let mut s = format!("{hdr}{}A", parts[2]); if parts.len() == 4 { s.push('.'); s.push_str(parts[3]); } s }));
     out.push(("payload text with '=' padding".into(), { let mut s = format!("{hdr}{}=", parts[2]); if parts.len() == 4 { s.push('.'); s.push_str(parts[3]); } s }));
     out.push(("payload text with '==' padding".into(), { let mut s = format!("{hdr}{}==", parts[2]); if parts.len() == 4 { s.push('.'); s.push_str(parts[3]); } s }));
@@ -177,7 +181,7 @@ fn tampered(t: &str) -> Vec<(String, String)> {
 }
 #[cfg(feature = "main_set")]
 fn c03() {
-    for v in 1..=4u8 { for m in ["", "a", "{\"data\":\"this is a signed message\"}", &"\u{e9}".repeat(40), &"x".repeat(64)] { for f in [None, Some("ft".to_string()), Some("f".repeat(300))] {
+    for v in 1..=4u8 { for m in ["", "a", "{\"data\":\"this is a signed message\"}", &"\u{e9}".repeat(40), &"x".repeat(64)] { for f in [None, Some("ft".to_string()), Some("ok?".to_string()), Some("f".repeat(300))] {
         let i = if v >= 3 { Some("ia".to_string()) } else { None };
         let t = match local::enc(v, 1, 2, m, &f, &i, false) { Ok(t) => t, Err(_) => continue };
         for (what, t2) in tampered(&t) {
@@ -325,7 +329,11 @@ fn key_constructors(pid: &str) {
         let want = match v { 1 => R::v1l(&kb, &[2; 32], m.as_bytes(), b""), 2 => R::v2l(&kb, &[2; 24], m.as_bytes(), b""), 3 => R::v3l(&kb, &[2; 32], m.as_bytes(), b"", b""), _ => R::v4l(&kb, &[2; 32], m.as_bytes(), b"", b"") };
         let t = match t { Ok(t) => t, Err(e) => { if pid != "C04" { return wit(format!("{pid} v{v}.local encryption of {m:?} under a key built with {what} fails: {e}")); } continue; } };
         if pid != "C04" && t != want { return wit(format!("{pid} v{v}.local token of {m:?} under the key [3,10,17,..] built with {what} is {t}, the specification gives {want}")); }
-        if pid == "C04" { for byte in [0usize, 1, 15, 16, 30, 31] { for bit in [0u8, 7] {
+        if pid == "C04" { // the right key first (a cache keyed on part of the key would now be warm), then the neighbours
+            if let Some(kr) = mk(&kb) { let ok = match v { 1 => Paseto::<V1, Local>::try_decrypt(&t, &PasetoSymmetricKey::<V1, Local>::from(kr), None).is_ok(), 2 => Paseto::<V2, Local>::try_decrypt(&t, &PasetoSymmetricKey::<V2, Local>::from(kr), None).is_ok(),
+                3 => Paseto::<V3, Local>::try_decrypt(&t, &PasetoSymmetricKey::<V3, Local>::from(kr), None, None).is_ok(), _ => Paseto::<V4, Local>::try_decrypt(&t, &PasetoSymmetricKey::<V4, Local>::from(kr), None, None).is_ok() };
+                if !ok { return wit(format!("C01 v{v}.local token of {m:?} does not decrypt under the key it was built with ({what})")); } }
+            for byte in [0usize, 1, 7, 8, 15, 16, 30, 31] { for bit in [0u8, 7] {
             let mut nb = kb; nb[byte] ^= 1 << bit;
             for tok in [&t, &want] {
             let Some(k2) = mk(&nb) else { continue };
@@ -505,7 +513,12 @@ fn c06() {
     // (footer, assertion) boundary shift
     for v in 3..=4u8 { let t = local::enc(v, 1, 2, "{}", &Some("ab".into()), &Some("cd".into()), false).unwrap_or_default();
         if local::dec(v, 1, &t, &Some("abc".into()), &Some("d".into())).is_ok() { return wit(format!("C06 v{v}.local boundary shift between footer and assertion accepted")); } }
-    for v in 3..=4u8 { for l in 0..=300usize { let a = "a".repeat(l); let mut b = "a".repeat(l); if l > 0 { b.pop(); b.push('b'); }
+    { let (kp, pk) = R::ed_keypair(9); let sk = PasetoAsymmetricPrivateKey::<V4, Public>::from(lkv(Key::<64>::from(kp))); let pkk = PasetoAsymmetricPublicKey::<V4, Public>::from(lkv(Key::<32>::from(pk)));
+      for l in 1..=1100usize { let a = lk(&"a".repeat(l)); let mut bb = "a".repeat(l); bb.pop(); bb.push('b'); let bb = lk(&bb);
+        let mut b = Paseto::<V4, Public>::builder(); b.set_payload(Payload::from("{\"a\":1}")); b.set_implicit_assertion(ImplicitAssertion::from(a));
+        if let Ok(t) = b.try_sign(&sk) { if Paseto::<V4, Public>::try_verify(&t, &pkk, None, Some(ImplicitAssertion::from(bb))).is_ok() { return wit(format!("C06 v4.public token built with a {l}-byte assertion verifies with another assertion of the same length (last byte differs)")); }
+            if Paseto::<V4, Public>::try_verify(&t, &pkk, None, Some(ImplicitAssertion::from(a))).is_err() { return wit(format!("C06 v4.public token built with a {l}-byte assertion does not verify with that assertion")); } } } }
+    for v in 3..=4u8 { for l in 0..=1100usize { let a = "a".repeat(l); let mut b = "a".repeat(l); if l > 0 { b.pop(); b.push('b'); }
         if let Ok(t) = local::enc(v, 1, 2, "{\"a\":1}", &None, &Some(a.clone()), false) {
             if l > 0 && local::dec(v, 1, &t, &None, &Some(b)).is_ok() { return wit(format!("C06 v{v}.local token built with a {l}-byte assertion is accepted with another assertion of the same length (last byte differs)")); }
             if local::dec(v, 1, &t, &None, &Some(format!("{a}x"))).is_ok() || (l > 0 && local::dec(v, 1, &t, &None, &Some(a[..l - 1].to_string())).is_ok()) { return wit(format!("C06 v{v}.local token built with a {l}-byte assertion is accepted with an assertion one byte longer / shorter")); } } } }
@@ -604,6 +617,11 @@ fn c09() {
         "v4.local.AAAA.\u{20ac}".into(), "v4.local.====".into(), "v4.local.AA AA".into(), "a.b.c.d.e.f".into(), "x".repeat(1 << 20)];
     for h in ["v1.local.", "v2.local.", "v3.local.", "v4.local.", "v1.public.", "v2.public.", "v3.public.", "v4.public."] {
         for n in 0..=400usize { inputs.push(format!("{h}{}", R::b64(&vec![0u8; n]))); if n % 7 == 0 { inputs.push(format!("{h}{}.Zm9v", R::b64(&vec![255u8; n]))); } }
+        for n in 401..=1300usize { inputs.push(format!("{h}{}", R::b64(&vec![0u8; n]))); }
+        for n in [2040usize, 2047, 2048, 2049, 4088, 4096, 4097, 8191, 8192, 8193, 16384, 65535, 65536, 65537] { inputs.push(format!("{h}{}", R::b64(&vec![0u8; n]))); }
+        for ftxt in ["{}}", "{\"kid\":\"k1\"}}", "]", "}", "{]", "[}", "{{{{{{{{{{{{{{{{{{{{{{{{{{{{{{{{{{{{{{{{", "[[[[[[[[[[[[[[[[[[[[[[[[[[[[[[[[[[[[[[[[[[[[[[[[[[[[[[[[[[[[[[[[[[[[[[[[", "{\"a\":{\"a\":{\"a\":{\"a\":{\"a\":{\"a\":1}}}}}}", "{\"a\":\"}}}}\"}", "\"", "{\"", "\u{feff}{}", "{\\", "{\"a\":\"\\\"}"] {
+            inputs.push(format!("{h}{}.{}", R::b64(&vec![0u8; 100]), R::b64(ftxt.as_bytes()))); }
+        inputs.push(format!("{h}{}.{}", R::b64(&vec![0u8; 100]), R::b64("{".repeat(9000).as_bytes()))); inputs.push(format!("{h}{}.{}", R::b64(&vec![0u8; 100]), "A".repeat(20000)));
     }
     let (_kp, pk) = R::ed_keypair(9);
     for s in &inputs {
@@ -686,6 +704,15 @@ fn c10() {
             for j in 0..$nl { if or_[j] != 255 || and_[j] != 0 { return wit(format!("C10 {}<{},Local>: over 80 builds from ONE reused builder nonce byte {j} has constant bits (or={:02x} and={:02x}): the nonces are not independent draws", if layer == 0 { "GenericBuilder" } else { "PasetoBuilder" }, stringify!($V), or_[j], and_[j])); } } }
     }} }
     go!(V1, 32); go!(V2, 24); go!(V3, 32); go!(V4, 32);
+    // builds of different versions (different draw sizes) interleaved on one thread; no nonce may contain a run of 8 equal bytes (chance 2^-59 per token)
+    { let k4 = lkv(PasetoSymmetricKey::<V4, Local>::from(key32(1))); let k2 = lkv(PasetoSymmetricKey::<V2, Local>::from(key32(1))); let k3 = lkv(PasetoSymmetricKey::<V3, Local>::from(key32(1)));
+      let mut b4 = GenericBuilder::<V4, Local>::default(); b4.set_claim(AudienceClaim::from("a")); let mut b2 = GenericBuilder::<V2, Local>::default(); b2.set_claim(AudienceClaim::from("a")); let mut b3 = GenericBuilder::<V3, Local>::default(); b3.set_claim(AudienceClaim::from("a"));
+      let mut seen = HashSet::new();
+      for k in 0..400usize { let _ = Key::<24>::try_new_random(); if k % 3 == 0 { let _ = Key::<64>::try_new_random(); }
+        for (name, t, nl) in [("v4", b4.try_encrypt(k4).unwrap_or_default(), 32usize), ("v2", b2.try_encrypt(k2).unwrap_or_default(), 24), ("v3", b3.try_encrypt(k3).unwrap_or_default(), 32)] {
+            let d = R::unb64(t.split('.').nth(2).unwrap_or("")).unwrap_or_default(); if d.len() < nl { return wit(format!("C10 interleaved builds: {name}.local build #{k} failed")); }
+            let n = &d[..nl]; if n.windows(8).any(|w| w.iter().all(|x| *x == w[0])) { return wit(format!("C10 builds of several versions interleaved on one thread (with other random keys drawn in between): the {name}.local token #{k} has a nonce with 8 equal bytes in a row: {:02x?}", n)); }
+            if !seen.insert(n.to_vec()) { return wit(format!("C10 interleaved builds: the {name}.local token #{k} repeats a nonce")); } } } }
     // builds on several threads
     { let handles: Vec<_> = (0..4).map(|_| std::thread::spawn(|| { let key = PasetoSymmetricKey::<V4, Local>::from(key32(1)); let mut out = vec![];
           let mut b = GenericBuilder::<V4, Local>::default(); b.set_claim(AudienceClaim::from("a")); for _ in 0..16 { if let Ok(t) = b.try_encrypt(&key) { out.push(t); } } out })).collect();
@@ -711,6 +738,23 @@ fn c11_c12(which: &str) {
     let mut cases: Vec<(String, bool)> = vec![]; // (json value text, must_accept) for exp; reversed for nbf
     for o in offs { for fr in [false, true] { for d in past { cases.push((format!("\"{}\"", fmt(now - d, o, fr)), false)); } for d in fut { cases.push((format!("\"{}\"", fmt(now + d, o, fr)), true)); } } }
     let bad = ["12345", "true", "false", "[1]", "{\"a\":1}", "\"\"", "\" \"", "\"garbage\"", "\"2019-01-01\"", "0", "1.5", "[]", "{}", "4102444800", "99999999999", "1e12", "-1", "\"4102444800\"", "\"2019-01-01T00:00Z\"", "\"20190101T000000Z\"", "\"2019-01-01\"", "\"2019-01-01T00:00:00\"", "\"2999-01-01T00:00Z\"", "\"29990101T000000Z\"", "\"2999-001T00:00:00Z\""];
+    // tokens that carry exp AND nbf (and iat), each rendered with its own offset: valid windows are accepted, an expired or not-yet-valid one is refused
+    { let m10 = time::Duration::minutes(10);
+      for o1 in offs { for o2 in offs { for (nbf_t, exp_t, ok) in [(now - m10, now + m10, true), (now - m10 - m10, now - m10, false), (now + m10, now + m10 + m10, false), (now - time::Duration::days(2), now + time::Duration::days(2), true)] {
+          let pl = format!("{{\"nbf\":\"{}\",\"exp\":\"{}\",\"iat\":\"{}\"}}", fmt(nbf_t, o1, false), fmt(exp_t, o2, true), fmt(nbf_t, o2, false));
+          let (t, key) = v4tok(&pl); let r = PasetoParser::<V4, Local>::default().parse(lk(&t), key);
+          if r.is_ok() != ok { return wit(format!("{which} default PasetoParser<V4,Local> on payload {pl} (now = {}) -> {:?} but must {}", now.format(&Rfc3339).unwrap(), r.map(|_| "Ok").map_err(|e| e.to_string()), if ok { "accept" } else { "reject" })); } } } } }
+    // verdicts follow the clock at the time of EACH parse: tokens with only one of the two claims are parsed, time passes, then a token whose
+    // nbf (or exp) lies between the two parses is judged (8 rounds, fresh parsers: validator order varies with the map's hashing)
+    for round in 0..8 { let t0 = time::OffsetDateTime::now_utc();
+        let (ta, key) = v4tok(&format!("{{\"exp\":\"{}\"}}", fmt(t0 + time::Duration::hours(1), (0, 0), true))); let (tb0, _) = v4tok(&format!("{{\"nbf\":\"{}\"}}", fmt(t0 - time::Duration::hours(1), (0, 0), true)));
+        let _ = PasetoParser::<V4, Local>::default().parse(lk(&ta), key); if round % 2 == 1 { let _ = PasetoParser::<V4, Local>::default().parse(lk(&tb0), key); }
+        std::thread::sleep(std::time::Duration::from_millis(450));
+        let t1 = time::OffsetDateTime::now_utc(); let mid = t0 + (t1 - t0) / 2;
+        let (tn, _) = v4tok(&format!("{{\"nbf\":\"{}\",\"exp\":\"{}\"}}", fmt(mid, (0, 0), true), fmt(t1 + time::Duration::hours(1), (0, 0), true)));
+        let (te, _) = v4tok(&format!("{{\"exp\":\"{}\",\"nbf\":\"{}\"}}", fmt(mid, (0, 0), true), fmt(t0 - time::Duration::hours(1), (0, 0), true)));
+        if which == "C12" { if let Err(e) = PasetoParser::<V4, Local>::default().parse(lk(&tn), key) { return wit(format!("C12 a token whose nbf ({}) passed 0.2 s ago is refused ({e}) by a fresh default PasetoParser on a thread that parsed another token 0.45 s earlier (round {round})", fmt(mid, (0, 0), true))); } }
+        else if PasetoParser::<V4, Local>::default().parse(lk(&te), key).is_ok() { return wit(format!("C11 a token whose exp ({}) passed 0.2 s ago is accepted by a fresh default PasetoParser on a thread that parsed another token 0.45 s earlier (round {round})", fmt(mid, (0, 0), true))); } }
     for (claim, flip) in [("exp", false), ("nbf", true)] {
         if (which == "C11") == flip { continue; }
         for (val, acc) in &cases { let must_accept = *acc != flip;
@@ -772,6 +816,17 @@ fn c13() {
               if i > created + time::Duration::milliseconds(300) || n > created + time::Duration::milliseconds(300) || i < before - time::Duration::seconds(1) || e - i != time::Duration::hours(1) {
                   return wit(format!("C13 PasetoBuilder created at {created}, built 1.3 s later: iat = {i}, nbf = {n}, exp = {e} (iat and nbf must be the creation time, exp one hour later)")); } } } } }
     let parse = |t: &str| GenericParser::<V4, Local>::default().parse(t, &key).unwrap();
+    // a caller-supplied nbf, however far ahead, leaves the default exp at iat + 1h
+    for ahead in [time::Duration::minutes(59), time::Duration::hours(1), time::Duration::hours(2), time::Duration::days(3)] { let nb = (time::OffsetDateTime::now_utc() + ahead).format(&time::format_description::well_known::Rfc3339).unwrap();
+        let mut b = PasetoBuilder::<V4, Local>::default(); b.set_claim(NotBeforeClaim::try_from(nb.as_str()).unwrap());
+        if let Ok(t) = b.build(&key) { if let Ok(j) = GenericParser::<V4, Local>::default().parse(lk(&t), key) { let pt = |v: &serde_json::Value| time::OffsetDateTime::parse(v.as_str().unwrap_or(""), &time::format_description::well_known::Rfc3339);
+            match (pt(&j["exp"]), pt(&j["iat"])) { (Ok(e), Ok(i)) => { if e - i != time::Duration::hours(1) || j["nbf"] != nb.as_str() { return wit(format!("C13 PasetoBuilder with only nbf = {nb} supplied (no exp): the token carries {j}; the default exp must stay iat + 1h and nbf the supplied value")); } } _ => return wit(format!("C13 PasetoBuilder with nbf supplied: exp/iat missing or unparsable in {j}")) } } } }
+    // several builders created in quick succession: each one's iat/nbf lie within its own creation window
+    { let mut prev_after = time::OffsetDateTime::now_utc();
+      for k in 0..6 { let before = time::OffsetDateTime::now_utc(); let mut b = PasetoBuilder::<V4, Local>::default(); let after = time::OffsetDateTime::now_utc(); std::thread::sleep(std::time::Duration::from_millis(120));
+        if let Ok(t) = b.build(&key) { if let Ok(j) = GenericParser::<V4, Local>::default().parse(lk(&t), key) { let pt = |v: &serde_json::Value| time::OffsetDateTime::parse(v.as_str().unwrap_or(""), &time::format_description::well_known::Rfc3339);
+            if let (Ok(i), Ok(n)) = (pt(&j["iat"]), pt(&j["nbf"])) { if i < before || i > after || n < before || n > after { return wit(format!("C13 builder #{k} of several created 120 ms apart: created between {before} and {after}, but its token has iat = {i}, nbf = {n}")); } } } }
+        prev_after = after; } }
     // ops: 0=set exp, 1=set custom, 2=ack, 3=footer, 4=build, 5=set nbf, 6=set iat
     let far = "2999-01-01T00:00:00Z";
     let mut seqs: Vec<Vec<u8>> = vec![vec![]];
@@ -796,7 +851,7 @@ fn c13() {
                     match (parse_t(&j["exp"]), parse_t(&j["iat"]), parse_t(&j["nbf"])) { (Ok(e), Ok(i), Ok(n)) => {
                         if !user_iat && e - i != time::Duration::hours(1) { return wit(format!("C13 default exp is not iat + 1h: ops {ops:?} -> {j}")); }
                         let after = time::OffsetDateTime::now_utc();
-                        if (!user_iat && (i < before - time::Duration::seconds(1) || i > after)) || (!user_nbf && n != i && !user_iat) { return wit(format!("C13 default iat/nbf are not the builder's creation time: ops {ops:?} -> {j}")); } }
+                        if (!user_iat && (i < before || i > after)) || (!user_nbf && n != i && !user_iat) { return wit(format!("C13 default iat/nbf are not the builder's creation time: ops {ops:?} -> {j}")); } }
                         _ => return wit(format!("C13 default time claims missing or unparsable: ops {ops:?} -> {j}")) } }
             } }
         } }
@@ -834,7 +889,7 @@ fn c14() {
         json!("\u{feff}"), json!("\u{feff}lead"), json!("mid\u{feff}dle"), json!("\u{200b}\u{2028}\u{2029}"), json!("nul\u{0}byte"), json!("q\"uote \\ back\nline\ttab"), json!(" padded "), json!({"\u{feff}k": "\u{feff}v"}), json!(["\u{feff}"]), json!(9007199254740993i64), json!(-0.5), json!(1e-7), json!(u64::MAX)];
     for (fv, want) in [(0.1f32, 0.1f64), (1.5, 1.5), (2.25, 2.25), (0.3, 0.3), (1e-3, 0.001), (16777217.0, 16777216.0)] { let mut b = GenericBuilder::<V4, Local>::default(); b.set_claim(CustomClaim::try_from(("f", fv)).unwrap()); b.set_claim(CustomClaim::try_from(("v", vec![fv, fv])).unwrap());
         if let Ok(t) = b.try_encrypt(&key) { match GenericParser::<V4, Local>::default().parse(lk(&t), key) { Ok(j) => { if j != json!({"f": want, "v": [want, want]}) { return wit(format!("C14 an f32 claim {fv} (short decimal form {want}) set directly and inside a Vec comes back as {j}")); } } Err(e) => return wit(format!("C14 parse failed for an f32 claim: {e}")) } } }
-    let keys = ["a", "n", "k", "scope", "\u{e9}\u{1F511}", "x", "\u{feff}", "k\u{feff}", " k", "k ", "K", "a.b"];   // non-empty keys only (C14 quantifies over non-empty keys; set_claim documents that it ignores an empty key)
+    let keys = ["a", "n", "k", "scope", "\u{e9}\u{1F511}", "x", "\u{feff}", "k\u{feff}", " k", "k ", "K", "a.b", "k\"q", "back\\slash", "tab\there", "nl\nkey", "\u{1}", "zw\u{200b}sp", "cafe\u{301}", "\u{7f}", "a\u{0}b", "\u{2028}", "'", "{", "\",\"x\":\"y"];   // non-empty keys only (C14 quantifies over non-empty keys; set_claim documents that it ignores an empty key)
     for k in keys { for v in &vals { for rounds in 1..=2 {
         let mut b = GenericBuilder::<V4, Local>::default();
         b.set_claim(CustomClaim::try_from(("other", 1)).unwrap());
@@ -923,7 +978,7 @@ fn c15() {
           match r2 { Ok(_) => return wit("C15 expecting nickname=bob accepts a token whose nickname is null".into()), Err(e) => { if !e.to_string().to_lowercase().contains("missing") && !format!("{e:?}").contains("Missing") { return wit(format!("C15 expecting nickname=bob on a token whose nickname is null is reported as {e:?}, not as a missing claim")); } } } } }
     { let t_p = v4tok("{\"https://example.com/role\":\"admin\",\"~0\":1,\"x/y\":2,\"a\":{\"b\":1}}").0;
       for (desc, k, v, acc) in [("'https://example.com/role'=admin (present)", "https://example.com/role", serde_json::json!("admin"), true), ("'~0'=1 (present)", "~0", serde_json::json!(1), true), ("'x/y'=2 (present)", "x/y", serde_json::json!(2), true),
-                                ("'a/b'=1 (absent: only a nested a.b exists)", "a/b", serde_json::json!(1), false), ("'x~1y'=2 (absent)", "x~1y", serde_json::json!(2), false), ("'~'=1 (absent)", "~", serde_json::json!(1), false)] {
+                                ("'a/b'=1 (absent: only a nested a.b exists)", "a/b", serde_json::json!(1), false), ("'a.b'=1 (absent: only a nested a.b exists)", "a.b", serde_json::json!(1), false), ("'a.b' = {b:1}... no: 'a'={b:1} (present)", "a", serde_json::json!({"b": 1}), true), ("'a[b]'=1 (absent)", "a[b]", serde_json::json!(1), false), ("'a.b.c'=1 (absent)", "a.b.c", serde_json::json!(1), false), ("'x~1y'=2 (absent)", "x~1y", serde_json::json!(2), false), ("'~'=1 (absent)", "~", serde_json::json!(1), false)] {
           let mut p = GenericParser::<V4, Local>::default(); p.check_claim(CustomClaim::try_from((k, v)).unwrap()); let r = p.parse(lk(&t_p), key).is_ok();
           if r != acc { return wit(format!("C15 GenericParser expecting {desc} on payload {{'https://example.com/role':admin, '~0':1, 'x/y':2, a:{{b:1}}}} -> accepts = {r} but must be {acc}")); } } }
     // large integers are compared exactly
@@ -1023,6 +1078,15 @@ fn c16() {
       let mut bad = t.clone(); bad.pop(); bad.push('A'); let _ = p.parse(lk(&bad), key); let wrong = lkv(PasetoSymmetricKey::<V4, Local>::from(key32(9))); let _ = p.parse(lk(&t), wrong);
       if CALLS.load(Ordering::SeqCst) != 0 { return wit("C16 a validator ran on a token that did not authenticate".into()); }
       let _ = p.parse(lk(&t), key); if CALLS.load(Ordering::SeqCst) != 1 { return wit(format!("C16 accepting validator ran {} times on a successful parse", CALLS.load(Ordering::SeqCst))); } }
+    // every local version, both parser layers: the right key first, then the same token under another key - no validator call, no success
+    { macro_rules! wrongkey { ($V:ty, $name:expr) => {{ let k1 = lkv(PasetoSymmetricKey::<$V, Local>::from(key32(1))); let k2 = lkv(PasetoSymmetricKey::<$V, Local>::from(key32(2)));
+          let mut b = GenericBuilder::<$V, Local>::default(); b.set_claim(SubjectClaim::from("alice"));
+          if let Ok(tv) = b.try_encrypt(k1) { let tv = lk(&tv); for layer in 0..2 { CALLS.store(0, Ordering::SeqCst);
+              let (first, second) = if layer == 0 { let mut p = GenericParser::<$V, Local>::default(); p.validate_claim(SubjectClaim::from("alice"), &accept); let a = p.parse(tv, k1).is_ok(); CALLS.store(0, Ordering::SeqCst); (a, p.parse(tv, k2).is_ok()) }
+                                    else { let mut p = PasetoParser::<$V, Local>::default(); p.validate_claim(SubjectClaim::from("alice"), &accept); let a = p.parse(tv, k1).is_ok(); CALLS.store(0, Ordering::SeqCst); (a, p.parse(tv, k2).is_ok()) };
+              if !first { return wit(format!("C16 {}<{},Local> rejects an authentic token under its own key", if layer == 0 { "GenericParser" } else { "PasetoParser" }, $name)); }
+              if second || CALLS.load(Ordering::SeqCst) != 0 { return wit(format!("C16 {}<{},Local>: after parsing a token under its own key, the same token under ANOTHER key: accepted = {second}, validator ran {} time(s) (must not authenticate)", if layer == 0 { "GenericParser" } else { "PasetoParser" }, $name, CALLS.load(Ordering::SeqCst))); } } } }} }
+      wrongkey!(V1, "V1"); wrongkey!(V2, "V2"); wrongkey!(V3, "V3"); wrongkey!(V4, "V4"); }
     // a token bound to footer "ft" and assertion "ia" presented to parsers configured with near misses of either: no validator call, no success
     { let mut b = GenericBuilder::<V4, Local>::default(); b.set_claim(SubjectClaim::from("alice")); b.set_footer(Footer::from("ft")); b.set_implicit_assertion(ImplicitAssertion::from("ia"));
       if let Ok(tb) = b.try_encrypt(key) { let tb = lk(&tb);
@@ -1094,6 +1158,19 @@ fn c17() {
         }} }
         if ver == 4 { run!(V4, &key) } else if s.len() <= 4 { run!(V3, &key3) }
     }}
+    // blank values count like any other value; and long runs of distinct keys followed by a repeat of any earlier one
+    { for k in ["iss", "sub", "aud", "jti"] { for (v1, v2) in [("", ""), ("", "x"), ("x", "")] { let mut b = PasetoBuilder::<V4, Local>::default();
+          for v in [v1, v2] { match k { "iss" => { b.set_claim(IssuerClaim::from(lk(v))); } "sub" => { b.set_claim(SubjectClaim::from(lk(v))); } "aud" => { b.set_claim(AudienceClaim::from(lk(v))); } _ => { b.set_claim(TokenIdentifierClaim::from(lk(v))); } } }
+          if b.build(&key).is_ok() { return wit(format!("C17 PasetoBuilder<V4,Local>: {k} supplied twice with values ({v1:?}, {v2:?}) but build returns a token")); } } }
+      let all = ["exp", "nbf", "iat", "iss", "sub", "aud", "jti", "c1", "c2", "c3", "c4", "c5", "c6", "c7", "c8", "c9", "c10", "c11", "c12", "c13"];
+      let setn = |b: &mut PasetoBuilder<V4, Local>, k: &str| { match k { "exp" => { b.set_claim(ExpirationClaim::try_from("2999-01-01T00:00:00Z").unwrap()); } "nbf" => { b.set_claim(NotBeforeClaim::try_from("2000-01-01T00:00:00Z").unwrap()); } "iat" => { b.set_claim(IssuedAtClaim::try_from("2000-01-01T00:00:00Z").unwrap()); }
+          "iss" => { b.set_claim(IssuerClaim::from("i")); } "sub" => { b.set_claim(SubjectClaim::from("s")); } "aud" => { b.set_claim(AudienceClaim::from("a")); } "jti" => { b.set_claim(TokenIdentifierClaim::from("j")); } other => { b.set_claim(CustomClaim::try_from((other.to_string(), 1)).unwrap()); } } };
+      for start in [0usize, 3, 7] { for n in 1..=(all.len() - start) { let ks = &all[start..start + n];
+          { let mut b = PasetoBuilder::<V4, Local>::default(); for k in ks { setn(&mut b, k); } if let Err(e) = b.build(&key) { return wit(format!("C17 PasetoBuilder<V4,Local>: {n} distinct keys {ks:?}, none repeated, but build fails: {e}")); } }
+          for j in [0usize, n / 2, n - 1] { let mut b = PasetoBuilder::<V4, Local>::default(); for k in ks { setn(&mut b, k); } setn(&mut b, ks[j]);
+              match b.build(&key) { Ok(_) => return wit(format!("C17 PasetoBuilder<V4,Local>: {n} distinct keys {ks:?} and then {:?} again: build returns a token", ks[j])),
+                  Err(GenericBuilderError::DuplicateTopLevelPayloadClaim(named)) => { if named != ks[j] { return wit(format!("C17 PasetoBuilder<V4,Local>: {n} distinct keys and then {:?} again: the error names {named:?}", ks[j])); } }
+                  Err(e) => return wit(format!("C17 PasetoBuilder<V4,Local>: {n} distinct keys and then {:?} again: build fails with {e:?}, not a duplicate-claim error", ks[j])) } } } } }
     // every top-level key, the patterns that matter: K K build / K build K build / K other build K build build / K other build (fine)
     let far = "2999-01-01T00:00:00Z";
     let setk = |b: &mut PasetoBuilder<V4, Local>, k: &str, n: u64| { match k { "exp" => { b.set_claim(ExpirationClaim::try_from(far).unwrap()); } "nbf" => { b.set_claim(NotBeforeClaim::try_from("2000-01-01T00:00:00Z").unwrap()); } "iat" => { b.set_claim(IssuedAtClaim::try_from("2000-01-01T00:00:00Z").unwrap()); }
@@ -1148,7 +1225,7 @@ fn c18() {
     let good = ["2019-01-01T00:00:00Z", "2019-01-01T00:00:00+00:00", "2039-12-31T23:59:59.123456789Z", "2019-01-01T00:00:00.5-23:59", "1971-06-01T12:00:00+05:30",
                 "2019-01-01T00:00:00.1234567+01:00", "2019-01-01T00:00:00.123456789+01:00", "2019-01-01T00:00:00.123456789-11:30", "9999-12-31T23:59:59Z", "0001-01-01T00:00:00Z", "2020-02-29T23:59:59Z", "2019-01-01T00:00:00.000000000Z",
                 "1990-12-31T23:59:60Z", "2016-12-31T23:59:60+00:00", "1998-12-31T23:59:60.5Z", "2015-06-30T23:59:60-00:00", "2000-02-29T12:00:00Z", "2019-01-01T00:00:00+23:59"];
-    let bad = ["", "hello", " 2019-01-01T00:00:00Z", "x2019-01-01T00:00:00Z", "T00:00:00Z", "12345", "tomorrow"];
+    let bad = ["", "hello", " 2019-01-01T00:00:00Z", "x2019-01-01T00:00:00Z", "T00:00:00Z", "12345", "tomorrow", "2023-13-01T00:00:00Z", "2023-02-32T00:00:00Z", "2023-00-10T00:00:00Z", "2023-01-00T00:00:00Z", "0000-00-00T00:00:00-00:00", "2023-99-99T00:00:00Z", "2023-1-01T00:00:00Z", "23-01-01T00:00:00Z"];
     for g in good {
         macro_rules! chk { ($T:ident) => {{ match $T::try_from(g) { Ok(c) => { use rusty_paseto::generic::PasetoClaim; let j = serde_json::to_value(&c).unwrap(); if j[c.get_key()] != g { return wit(format!("C18 {}::try_from({g:?}) does not keep the text verbatim: {j}", stringify!($T))); } } Err(e) => return wit(format!("C18 {}::try_from({g:?}) rejects an RFC 3339 date-time: {e}", stringify!($T))) }
             if $T::try_from(g.to_string()).is_err() { return wit(format!("C18 {}::try_from(String {g:?}) rejects an RFC 3339 date-time", stringify!($T))); } }} }
@@ -1163,6 +1240,28 @@ fn c18() {
 }
 #[cfg(feature = "main_set")]
 fn c02() { public_tamper(); c08(); 
+    // every footer of the shared list (incl. ones that look like serialized keys or unbalanced JSON) and odd claim keys, v2/v4 public, all three layers
+    { let (kp, pk) = R::ed_keypair(9); let k64 = lkv(Key::<64>::from(kp)); let k32 = lkv(Key::<32>::from(pk));
+      for f in footers() { let ff = f.as_deref().map(lk);
+        macro_rules! one { ($V:ty, $name:expr, $($ia:tt)*) => {{
+            let sk = PasetoAsymmetricPrivateKey::<$V, Public>::from(k64); let pkk = lkv(PasetoAsymmetricPublicKey::<$V, Public>::from(k32));
+            let mut c = Paseto::<$V, Public>::builder(); c.set_payload(Payload::from("{\"a\":1}")); if let Some(f) = ff { c.set_footer(Footer::from(f)); }
+            match c.try_sign(&sk) { Ok(t) => { if Paseto::<$V, Public>::try_verify(&t, pkk, ff.map(Footer::from) $($ia)*).ok().as_deref() != Some("{\"a\":1}") { return wit(format!("C02 {} core: a token signed with footer {:?} does not verify back to its message", $name, f.as_ref().map(|x| &x[..x.len().min(40)]))); } }
+                                    Err(e) => return wit(format!("C02 {} core: signing with footer {:?} fails: {e:?}", $name, f.as_ref().map(|x| &x[..x.len().min(40)]))) }
+            let mut g = GenericBuilder::<$V, Public>::default(); g.set_claim(AudienceClaim::from("a")); if let Some(f) = ff { g.set_footer(Footer::from(f)); }
+            match g.try_sign(&sk) { Ok(t) => { let mut p = GenericParser::<$V, Public>::default(); if let Some(f) = ff { p.set_footer(Footer::from(f)); } if p.parse(lk(&t), pkk).is_err() { return wit(format!("C02 {} generic layer: a token signed with footer {:?} is not accepted by the matching parser", $name, f.as_ref().map(|x| &x[..x.len().min(40)]))); } }
+                                    Err(e) => return wit(format!("C02 GenericBuilder<{},Public>: signing with footer {:?} fails: {e:?}", $name, f.as_ref().map(|x| &x[..x.len().min(40)]))) }
+            let mut pb = PasetoBuilder::<$V, Public>::default(); if let Some(f) = ff { pb.set_footer(Footer::from(f)); }
+            match pb.build(&sk) { Ok(t) => { let mut p = PasetoParser::<$V, Public>::default(); if let Some(f) = ff { p.set_footer(Footer::from(f)); } if p.parse(lk(&t), pkk).is_err() { return wit(format!("C02 {} batteries-included layer: a token built with footer {:?} is not accepted by the matching parser", $name, f.as_ref().map(|x| &x[..x.len().min(40)]))); } }
+                                  Err(e) => return wit(format!("C02 PasetoBuilder<{},Public>: build with footer {:?} fails: {e:?}", $name, f.as_ref().map(|x| &x[..x.len().min(40)]))) }
+        }} }
+        one!(V4, "v4.public", , None); one!(V2, "v2.public", ); }
+      for k in ["k\"q", "back\\slash", "tab\there", "nl\nkey", "\u{1}", "zw\u{200b}sp", "cafe\u{301}", "\u{7f}", "a\u{0}b", "\u{2028}", "emoji\u{1F511}", "'", "{", "user.role", "a/b"] {
+        let sk = PasetoAsymmetricPrivateKey::<V4, Public>::from(k64); let pkk = lkv(PasetoAsymmetricPublicKey::<V4, Public>::from(k32));
+        let mut g = GenericBuilder::<V4, Public>::default(); g.set_claim(CustomClaim::try_from((k, "v")).unwrap());
+        match g.try_sign(&sk) { Ok(t) => match GenericParser::<V4, Public>::default().parse(lk(&t), pkk) { Ok(j) => { if j != serde_json::json!({k: "v"}) { return wit(format!("C02 a v4.public token built with the claim {k:?} = \"v\" parses to {j}")); } }
+                                   Err(e) => return wit(format!("C02 a v4.public token built by GenericBuilder with the claim key {k:?} is not accepted by the matching parser: {e:?}")) },
+                                Err(e) => return wit(format!("C02 GenericBuilder<V4,Public> with claim key {k:?} fails: {e:?}")) } } }
     // RSA (v1.public) round trip with the repository's test key
     let repo = std::env::args().nth(2).unwrap_or("/repo".into());
     if let (Ok(sk), Ok(pk)) = (std::fs::read(format!("{repo}/tests/v1_public_test_vectors_private_key.pk8")), std::fs::read(format!("{repo}/tests/v1_public_test_vectors_public_key.der"))) {
